@@ -82,6 +82,8 @@ def run(ctx) -> Result:
         cfg = pipecheck.CONFIGS[i % len(pipecheck.CONFIGS)]
         if i % 4 == 3:
             hist = pipe.gen_history_renames(rng, n_renames=rng.randint(2, 5))
+        elif i % 4 == 1:
+            hist = pipe.gen_history_filechurn(rng, n_ops=rng.randint(4, 12))
         else:
             hist = pipe.gen_history(rng, n_ops=rng.randint(3, 14), paced=True, burst_prob=rng.choice([0.0, 0.5, 0.9]))
         one(ctx, res, hist, cfg, batch)
